@@ -1,7 +1,5 @@
 // ---- world transformers shared with the other packs (identical text in specs/fungible/fungible.rs; a unit
 //      that includes fungible.rs lists that file instead of this one) ----
-pub open spec fn w_auth(w: World, a: Address) -> World { World { auths: w.auths.insert(a), ..w } }
-pub open spec fn w_event(w: World, ev: SV) -> World { World { events: w.events.push(ev), ..w } }
 pub open spec fn opt_addr(o: Option<&Address>) -> Option<Address> {
     match o { Some(a) => Some(*a), None => None }
 }
